@@ -86,6 +86,46 @@ def run_model(requests):
     return [sx.loads(t) for t in outs]
 
 
+# ---------------------------------------------------------------- extraction cross-check (thorough tier)
+def to_coq(v):
+    from fractions import Fraction
+    if isinstance(v, bool): v = "T" if v else "F"
+    if isinstance(v, int): return "(ZZ (%d)%%Z)" % v
+    if isinstance(v, Fraction): return "(QQ (mkq (%d)%%Z %d%%positive))" % (v.numerator, v.denominator)
+    if isinstance(v, str): return '(SS "%s"%%string)' % v.replace('"', '""')
+    if isinstance(v, list): return "(LL [" + "; ".join(to_coq(x) for x in v) + "])"
+    return to_coq(sx.enc(v))
+
+
+def cross_check(prop, items, limit=30, maxlen=5000):
+    """evaluate the judge INSIDE Coq (vm_compute) on small cases and compare with the extracted driver's answers"""
+    cand = []
+    for j in items:
+        t = sx.dumps(j["case"]) + sx.dumps(j["obs"])
+        if len(t) <= maxlen: cand.append((len(t), j))
+    cand.sort(key=lambda t: t[0])
+    step = max(1, len(cand) // limit)
+    chosen = [j for _, j in cand[::step]][:limit]
+    if not chosen: return dict(cases=0, agree=True, log="no small cases")
+    reqs = [[prop, j["case"], j["obs"]] for j in chosen]
+    outs = run_model(reqs)
+    d = os.path.join(ROOT, "build", "cross"); os.makedirs(d, exist_ok=True)
+    f = os.path.join(d, "Cross_%s.v" % prop)
+    with open(f, "w") as fh:
+        fh.write("From Physt Require Import Num Sx Dispatch.\nFrom Coq Require Import List String ZArith Bool.\nImport ListNotations.\nOpen Scope list_scope.\n")
+        fh.write("Definition reqs : list sx := [\n" + ";\n".join(to_coq(sx.enc(r)) for r in reqs) + "].\n")
+        fh.write("Definition outs : list sx := [\n" + ";\n".join(to_coq(sx.enc(o)) for o in outs) + "].\n")
+        fh.write("Eval vm_compute in (Nat.eqb (List.length reqs) (List.length outs) && all2 sx_eqb (List.map run reqs) outs)%bool.\n")
+    p = subprocess.run("ulimit -s unlimited 2>/dev/null; timeout 900 coqc -Q %s Physt %s" % (os.path.join(ROOT, "coq"), f), shell=True, capture_output=True, text=True)
+    ok = p.returncode == 0 and "= true" in p.stdout
+    for ext in (".vo", ".vok", ".vos", ".glob"):
+        try: os.unlink(f[:-2] + ext)
+        except OSError: pass
+    aux = os.path.join(d, ".Cross_%s.aux" % prop)
+    if os.path.exists(aux): os.unlink(aux)
+    return dict(cases=len(reqs), agree=ok, log=(p.stdout + p.stderr)[-600:])
+
+
 # ---------------------------------------------------------------- proofs gate
 def proof_gate(prop):
     """rebuild the Coq development incrementally, re-check Props/<prop>.v, collect assumptions"""
@@ -227,7 +267,7 @@ def bucket_of(case):
 def main(argv=None):
     ap = argparse.ArgumentParser()
     ap.add_argument("prop"); ap.add_argument("--tier", default=os.environ.get("VERIF_TIER", "quick"))
-    ap.add_argument("--replay"); ap.add_argument("--n", type=int); ap.add_argument("--no-gate", action="store_true")
+    ap.add_argument("--replay"); ap.add_argument("--n", type=int); ap.add_argument("--no-gate", action="store_true"); ap.add_argument("--cross", action="store_true")
     a = ap.parse_args(argv)
     seed = int(os.environ.get("VERIF_SEED", "20260930"))
     t0 = time.time()
@@ -285,6 +325,7 @@ def main(argv=None):
     stats = dict(evaluations=0, illformed=0, verdict_ok=0, corr_same=0, nontrivial=set(), buckets={}, obs_kinds={})
     samples = []
     fails = []
+    small = []
     B = 4000
     for s in range(0, len(cases), B):
         for j in run.judge(cases[s:s + B]):
@@ -299,6 +340,7 @@ def main(argv=None):
                 stats["nontrivial"].add(hashlib.sha1(sx.dumps(j["case"]).encode()).digest()[:8])
             if len(samples) < 3 and j["verdict"] == "ok" and stats["evaluations"] > ncorpus and mod.nontrivial(j["case"], j["obs"]):
                 samples.append(dict(case=sx.dumps(j["case"])[:1500], impl_obs=sx.dumps(j["obs"])[:1500], verdict=j["verdict"]))
+            if len(small) < 400 and j["verdict"] in ("ok", "bad"): small.append(j)
             k = run.failing(j)
             if k: fails.append((k, j))
             elif j["verdict"] not in ("ok", "illformed"): fails.append(("corr", j))
@@ -337,6 +379,17 @@ def main(argv=None):
                        % (a.prop, stats["illformed"], stats["evaluations"])), open(path, "w"), indent=1)
         violations.append((path, " no-failing-input-found"))
 
+    # the same judge evaluated inside Coq (vm_compute) must agree with the extracted driver
+    cross = dict(cases=0, agree=True, log="not run in this tier")
+    if a.tier == "thorough" or a.cross:
+        cross = cross_check(a.prop, small)
+        if not cross["agree"]:
+            os.makedirs(os.path.join(ROOT, "replays"), exist_ok=True)
+            path = os.path.join(ROOT, "replays", "%s-extraction.json" % a.prop)
+            json.dump(dict(property=a.prop, kind="corr", theorem_or_corr="corr:%s: judge_%s evaluated by vm_compute inside Coq differs from the extracted OCaml code on build/cross/Cross_%s.v" % (a.prop, a.prop, a.prop),
+                           log=cross["log"]), open(path, "w"), indent=1)
+            violations.append((path, " no-failing-input-found"))
+
     for fid, cnt in sorted(known_hit.items()):
         out_lines.append("KNOWN-FINDING: property=%s %s: %s (%d cases)" % (a.prop, fid, findings[fid]["what"], cnt))
     for path, suf in violations:
@@ -360,6 +413,7 @@ def main(argv=None):
                             illformed_cases=stats["illformed"], corpus_cases=ncorpus,
                             input_distribution=dict(buckets=stats["buckets"], observation_kinds=stats["obs_kinds"]),
                             known_findings_hit=known_hit, forbidden_tokens=gate["forbidden"],
+                            extraction_cross_check=dict(cases_evaluated_in_coq=cross["cases"], agree=cross["agree"], note=cross["log"][-200:] if not cross["agree"] else "vm_compute of Dispatch.run on these cases equals the extracted driver's output"),
                             modelled_not_verified=getattr(mod, "MODELLED", "")),
               assumptions=tb, wall_s=round(time.time() - t0, 1), violations=len(violations))
     if not a.no_gate and not a.n:      # development runs (--no-gate / --n) never overwrite the evidence of a full run
